@@ -34,12 +34,14 @@ import gin
 from gin import config as gc
 from bounded import harness
 
-BOUNDS = ('2-4 threads, each a program of 1-3 actions (8 configurable calls in 3 scopes with/'
-          'without caller-supplied arguments, operative_config_str reads, first uses of 4 '
-          'singletons incl. a constructor that uses another singleton); schedules: every '
-          'single preemption point 0..259 of 6 two-thread programs, 36 lock-boundary/'
-          'constructor-window schedules, and sampled schedules of <= 6 segments; sequential '
-          'singleton histories of <= 8 uses/clears over 5 scope names')
+BOUNDS = ('2-4 threads, each a program of 1-3 actions out of 8 configurable calls (3 scopes, '
+          'with/without caller-supplied arguments), operative_config_str reads and 5 uses of 5 '
+          'singletons (one whose constructor uses another singleton). Schedules at gin-statement '
+          'granularity: 54 lock-boundary/constructor-window schedules; 18 sweeps (14 two-thread '
+          'single-preemption, 4 with another thread parked at a lock boundary) over every '
+          'preemption point of the swept thread (thorough) or ~90 evenly spaced points per sweep '
+          '(quick); 120/6000 sampled schedules of <= 6 segments. Sequential singleton histories: '
+          '36 fixed + 100/4000 sampled, <= 8 uses/clears.')
 EXHAUSTIVE = {'quick': False, 'thorough': False}
 
 _GIN_DIR = os.path.dirname(os.path.abspath(gin.__file__))
@@ -67,6 +69,7 @@ class _Sched:
     self.cur = None
     self.abort = False
     self.problems = []
+    self.lines = [0] * n             # gin statements executed per thread
 
   # ---- worker side -------------------------------------------------------------------
   def me(self):
@@ -84,6 +87,8 @@ class _Sched:
   def point(self, tag):
     tid = self.me()
     seg = self.cur
+    if tid is not None and tag == 'line':
+      self.lines[tid] += 1
     if tid is None or seg is None or self.abort:
       return
     if seg[1] is not None:           # still waiting for the named event
@@ -271,16 +276,21 @@ def _label(v):
 
 
 def _do(action):
-  if action == 'read':
-    return ['ok', gin.operative_config_str()]
-  name, scope, kwargs = ACTIONS[action]
   try:
+    if action == 'read':
+      return ['ok', gin.operative_config_str()]
+    if action == 'clear':
+      gin.clear_config()
+      gin.parse_config(SETUP)
+      return ['ok', None]
+    name, scope, kwargs = ACTIONS[action]
     with gin.config_scope(scope):
       return ['ok', gin.get_configurable('c18.' + name)(**kwargs)]
   except Exception as e:   # pylint: disable=broad-except
-    return ['exc', type(e).__name__]
+    return ['exc', '%s: %s' % (type(e).__name__, str(e)[:60])]
 
 
+_LAST_LINES = []    # statements per thread of the most recent run
 _SEQ_CACHE = {}     # programs -> sequential outcome (a pure function of the programs)
 _PARSED_OK = set()  # read texts already shown to parse
 
@@ -293,11 +303,14 @@ def _sequential(programs):
 
 
 def _sequential_run(programs):
-  _setup()
-  out = [[_do(a) for a in prog] for prog in programs]
-  out = [[[k, _label(v)] if a != 'read' else [k, v] for a, (k, v) in zip(prog, res)]
-         for prog, res in zip(programs, out)]
-  return out, gin.operative_config_str()
+  """The same actions one after another: thread 0's, then thread 1's, ... (one worker, no preemption)."""
+  flat = [x for prog in programs for x in prog]
+  (res,), problems, text = _threaded([flat], [])
+  out, i = [], 0
+  for prog in programs:
+    out.append(res[i:i + len(prog)])
+    i += len(prog)
+  return out, text, problems
 
 
 def _threaded(programs, schedule):
@@ -340,6 +353,7 @@ def _threaded(programs, schedule):
     for t in threads:
       t.start()
     sched.run()
+    final_text = _try_text()   # still under the cooperative locks: cannot block this thread
   finally:
     sched.finish()
     for t in threads:
@@ -353,7 +367,8 @@ def _threaded(programs, schedule):
               for prog, res in zip(programs, results)]
   for prog, res in zip(programs, labelled):
     res.extend([['exc', 'never returned']] * (len(prog) - len(res)))
-  return labelled, sched.problems, _try_text()
+  _LAST_LINES[:] = sched.lines
+  return labelled, sched.problems, final_text
 
 
 def _try_text():
@@ -374,8 +389,12 @@ def _sig(clause, programs):
 
 def _check_threads(case):
   programs, schedule = case['programs'], case['schedule']
-  want, want_text = _sequential(programs)
+  want, want_text, seq_problems = _sequential(programs)
   got, problems, got_text = _threaded(programs, schedule)
+  if seq_problems:   # the one-after-another run itself never returns: nothing to compare with
+    return [{'clause': 'no_deadlock', 'expected': 'every call returns', 'observed': p,
+             'signature': _sig('no_deadlock sequential ' + p.split(':')[0], programs)}
+            for p in seq_problems[:1]]
   made = list(_MADE)
   fails = []
   for p in problems:
@@ -432,7 +451,8 @@ def _idx(label):
 
 
 def _check_history(case):
-  _setup()
+  history = case['history']
+  (res,), problems, _ = _threaded([history], [])
   cache, counts, fails = {}, {}, []
 
   def model(scope):
@@ -443,31 +463,29 @@ def _check_history(case):
       counts[scope] = counts.get(scope, 0) + 1
     return cache[scope]
 
-  for step, op in enumerate(case['history']):
+  if problems:
+    return [{'clause': 'no_deadlock', 'expected': 'every use returns', 'observed': problems[0],
+             'signature': 'no_deadlock sequential ' + problems[0].split(':')[0]}]
+  for step, op in enumerate(history):
     if op == 'clear':
-      gin.clear_config()
-      gin.parse_config(SETUP)
       cache.clear()
       continue
     want = [model(s) for s in SCOPES_OF[op]]
     want = [w + ('(%s)' % cache['s1'] if w.startswith('s3#') else '') for w in want]
-    res = _do(op)
-    got = _label(res[1]) if res[0] == 'ok' else res
-    got = [g for g in got if g is not None] if res[0] == 'ok' else got
-    made = sum(counts.values())
+    got = [g for g in res[step][1] if g is not None] if res[step][0] == 'ok' else res[step]
     if got != want:
-      cleared = 'clear' in case['history'][:step]
-      stale = res[0] == 'ok' and len(got) == len(want) and any(
+      stale = res[step][0] == 'ok' and len(got) == len(want) and any(
           _idx(g) < _idx(w) for g, w in zip(got, want))
-      clause = 'clear_forgets' if cleared and stale else 'singleton_model'
+      clause = 'clear_forgets' if 'clear' in history[:step] and stale else 'singleton_model'
       fails.append({'clause': clause, 'expected': want, 'observed': got, 'step': step,
                     'signature': '%s op=%s' % (clause, op)})
-    elif len(_MADE) != made:
-      fails.append({'clause': 'singleton_model', 'expected': '%d constructions so far' % made,
-                    'observed': len(_MADE), 'step': step,
-                    'signature': 'singleton_model constructions op=%s' % op})
-    if fails:
       break
+  made = {}
+  for scope, _ in _MADE:
+    made[scope] = made.get(scope, 0) + 1
+  if not fails and made != counts:
+    fails.append({'clause': 'singleton_model', 'expected': counts, 'observed': made,
+                  'signature': 'singleton_model constructions'})
   return fails
 
 
@@ -481,17 +499,37 @@ def nontrivial(case):
   return bool(case.get('programs') or case.get('history'))
 
 
-PAIRS = [   # two-thread programs whose every single preemption point is enumerated
+BIG = 10 ** 6
+PAIRS = [   # two-thread programs whose single preemption points are enumerated
     [['f0_sc1', 'read'], ['f1', 'f0_kw']],
     [['read'], ['f0', 'f2_sc1']],
     [['f0'], ['f0_kw']],
+    [['f0_kw', 'read'], ['f0']],
     [['use1'], ['use12']],
     [['use3'], ['use1', 'read']],
     [['f1_sc1', 'read'], ['read', 'f0_sc12']],
 ]
+# (programs, schedule prefix, swept thread, schedule suffix): the swept thread is preempted after k
+# statements for every k; the prefix parks another thread at a lock boundary first
+SWEEPS = [(p, [], w, [[1 - w, None, BIG]]) for p in PAIRS for w in (0, 1)] + [
+    ([['read'], ['f0'], ['f0_kw']], [[2, None, BIG], [1, 'rel', 0]], 0, [[1, None, BIG]]),
+    ([['read'], ['f0'], ['f0_kw']], [[2, None, BIG], [1, 'acq', 1]], 0, [[1, None, BIG]]),
+    ([['f0_kw', 'read'], ['f0_sc1'], ['read']], [[1, 'acq', 0]], 0, [[2, None, BIG]]),
+    ([['use1'], ['use12'], ['use3']], [[1, 'ctor', 0]], 0, [[2, None, BIG]]),
+]
+HISTORIES = [[u] for u in USES] + [[u, v] for u in USES for v in USES] + [
+    [u, 'clear', u] for u in USES] + [['use12', 'use_ab', 'clear', 'use_ab', 'use1', 'use3']]
+
+
+def _steps(progs, prefix, who):
+  """Statements thread `who` executes inside gin after the prefix (measured, not assumed)."""
+  _threaded(progs, prefix + [[who, None, BIG]])
+  return _LAST_LINES[who]
 
 
 def cases(tier, rng):
+  for hist in HISTORIES:
+    yield {'mode': 'history', 'history': hist}
   # lock boundaries and the constructor window: preempt right after acquire / release / ctor entry
   for progs in PAIRS + [[['use_bb'], ['use_ab'], ['use12']], [['use3'], ['use3'], ['read']],
                         [['f0'], ['read'], ['f0_sc1'], ['read']]]:
@@ -501,12 +539,12 @@ def cases(tier, rng):
           continue
         sched = [[t, until, n] for t in range(len(progs))]
         yield {'mode': 'threads', 'programs': progs, 'schedule': sched}
-  for progs in PAIRS:
-    step = 1 if tier == 'thorough' else 2
-    for who in (0, 1):
-      for k in range(0, 260, step):
-        yield {'mode': 'threads', 'programs': progs, 'schedule': [[who, None, k], [1 - who, None, 10 ** 6]]}
-  for _ in range(150 if tier == 'quick' else 4000):
+  for progs, prefix, who, suffix in SWEEPS:
+    total = _steps(progs, prefix, who)
+    stride = 1 if tier == 'thorough' else -(-total // 90)
+    for k in range(rng.randrange(stride), total + 1, stride):
+      yield {'mode': 'threads', 'programs': progs, 'schedule': prefix + [[who, None, k]] + suffix}
+  for _ in range(120 if tier == 'quick' else 6000):
     n = rng.choice([2, 2, 3, 3, 4])
     progs = []
     for _t in range(n):
@@ -514,6 +552,6 @@ def cases(tier, rng):
     sched = [[rng.randrange(n), rng.choice([None, None, 'acq', 'rel', 'ctor']), rng.randint(0, 120)]
              for _s in range(rng.randint(1, 6))]
     yield {'mode': 'threads', 'programs': progs, 'schedule': sched}
-  for _ in range(150 if tier == 'quick' else 3000):
+  for _ in range(100 if tier == 'quick' else 4000):
     yield {'mode': 'history',
            'history': [rng.choice(USES + USES + ['clear']) for _h in range(rng.randint(1, 8))]}
